@@ -255,14 +255,18 @@ fn gen(rng: &mut Rng, tier: &str) -> Vec<(String, Value)> {
     let mk = |todos: &[Vec<u64>], sched: &[usize]| json!({"todos": todos, "sched": sched});
     // (a) exhaustive: every interleaving (up to stutters) of two threads
     //     get() only (8 steps each): same new address, different new addresses in both orders, IPv4 vs IPv6
-    let mut exhaustive = |name: &str, todos: Vec<Vec<u64>>, warm: Vec<usize>, active: Vec<usize>, stop_at_got: bool, limit: usize| {
+    //     (stride > 1: only every stride-th interleaving of the enumeration is kept, class "sampled.*")
+    let mut exhaustive_s = |name: &str, todos: Vec<Vec<u64>>, warm: Vec<usize>, active: Vec<usize>, stop_at_got: bool, stride: usize| {
         let mut s = Shadow::new(&todos);
         for &i in &warm { s.step(i); }
         let mut out = Vec::new();
         let mut prefix = warm.clone();
-        let complete = enumerate(&s, &active, stop_at_got, limit, &mut prefix, &mut out);
-        let class = format!("exhaustive.{}{}", name, if complete { "" } else { ".truncated" });
-        for sch in out { cases.push((class.clone(), mk(&todos, &sch))); }
+        let complete = enumerate(&s, &active, stop_at_got, 1_000_000, &mut prefix, &mut out);
+        let class = format!("{}.{}{}", if stride > 1 { "sampled" } else { "exhaustive" }, name, if complete { "" } else { ".truncated" });
+        for (k, sch) in out.iter().enumerate() { if k % stride == 0 { cases.push((class.clone(), mk(&todos, sch))); } }
+    };
+    let mut exhaustive = |name: &str, todos: Vec<Vec<u64>>, warm: Vec<usize>, active: Vec<usize>, stop_at_got: bool, _limit: usize| {
+        exhaustive_s(name, todos, warm, active, stop_at_got, 1)
     };
     exhaustive("get.same_address", vec![vec![5], vec![5]], vec![], vec![0, 1], true, 100000);
     exhaustive("get.different_addresses", vec![vec![5], vec![9]], vec![], vec![0, 1], true, 100000);
@@ -275,8 +279,10 @@ fn gen(rng: &mut Rng, tier: &str) -> Vec<(String, Value)> {
         exhaustive("conn.same_address", vec![vec![5], vec![5]], vec![], vec![0, 1], false, 100000);
         exhaustive("conn.different_addresses", vec![vec![5], vec![9]], vec![], vec![0, 1], false, 100000);
         exhaustive("conn.hit_miss", vec![vec![5], vec![6], vec![5, 7]], warm2.clone(), vec![0, 1], false, 100000);
-    } else {
-        exhaustive("conn.same_address", vec![vec![5], vec![5]], vec![], vec![0, 1], false, 100000);
+    }
+    drop(exhaustive);
+    if !thorough {
+        exhaustive_s("conn.same_address", vec![vec![5], vec![5]], vec![], vec![0, 1], false, 7);
     }
     // (b)/(c) structured random: 2-4 threads, 1-3 connections each, few distinct addresses; the class names the
     //     branches of the proof's case split the schedule reaches (computed on the shadow)
